@@ -61,6 +61,37 @@ func c02Check(b []byte) (bad string, accepted bool, skipped bool) {
 	if !ok {
 		return "", false, false
 	}
+	return c02Compare(m, f), true, false
+}
+
+// c02Reuse: one JTMessage object and one input buffer used for a whole sequence of frames, the way a read loop would.
+type c02Reuse struct {
+	m   *jt808.JTMessage
+	buf []byte
+}
+
+// c02CheckReused decodes b from the start of the reused buffer into the reused object; the outcome must be the one the bytes
+// prescribe, whatever was decoded before.
+func c02CheckReused(b []byte, st *c02Reuse) string {
+	if interior7e(b) || len(b) > len(st.buf) {
+		return ""
+	}
+	n := copy(st.buf, b)
+	err := st.m.Decode(st.buf[:n:n])
+	f, ok := ref.Validate(b)
+	if ok != (err == nil) {
+		if ok {
+			return "accept|well-formed frame rejected: " + err.Error()
+		}
+		return "accept|malformed frame accepted"
+	}
+	if !ok {
+		return ""
+	}
+	return c02Compare(st.m, f)
+}
+
+func c02Compare(m *jt808.JTMessage, f *ref.Frame) (bad string) {
 	h := m.Header
 	b2i := func(b bool) uint8 {
 		if b {
@@ -98,7 +129,7 @@ func c02Check(b []byte) (bad string, accepted bool, skipped bool) {
 	case m.VerifyCode != f.Check:
 		bad = "field|checksum byte"
 	}
-	return bad, true, false
+	return bad
 }
 
 func c02Fix(p []byte) []byte {
@@ -241,6 +272,8 @@ func c02Worker(c *core.Collector, x *Ctx) {
 	chunk := 500
 	core.ParallelFor(nrand/chunk, ncpu(), func(ci int) {
 		r := core.NewRand(c.Seed, "c02r", uint64(ci))
+		st := &c02Reuse{m: jt808.NewJTMessage(), buf: make([]byte, 4200)}
+		var prevE []byte
 		for k := 0; k < chunk; k++ {
 			v := r.Bool()
 			n := 6
@@ -278,6 +311,30 @@ func c02Worker(c *core.Collector, x *Ctx) {
 			}
 			e := ref.Escape(p)
 			check(e, "valid", true)
+			// the same frames through ONE JTMessage object and ONE input buffer, each frame preceded by a near copy of itself with
+			// another phone (same layout, same length: the previous input's bytes sit exactly where the new ones go)
+			{
+				p2 := append([]byte{}, p...)
+				phoneOff := 4
+				if v {
+					phoneOff = 5
+				}
+				p2[phoneOff+r.Intn(n)] ^= []byte{0x01, 0x10, 0x80}[r.Intn(3)]
+				prevE = ref.Escape(c02Fix(p2))
+			}
+			for _, fr2 := range [][]byte{prevE, e} {
+				var badr string
+				if guard(c, func() any {
+					return map[string]any{"kind": "c02", "input": core.Hex(fr2), "gen": "reused-object-and-buffer"}
+				}, func() { badr = c02CheckReused(fr2, st) }) {
+					continue
+				}
+				c.Count("frames_decoded_into_a_reused_object_from_a_reused_buffer", 1)
+				if badr != "" {
+					c.Violate("differential|"+badr+"|reused-object-and-buffer", "Decode into a reused JTMessage from a reused buffer vs reference validator: "+badr,
+						map[string]any{"kind": "c02", "input": core.Hex(fr2), "previous_input": core.Hex(prevE), "gen": "reused-object-and-buffer"})
+				}
+			}
 			if k == 0 && c.WantSample() {
 				c.Sample(map[string]any{"gen": "valid", "input": core.HexCap(e, 80)})
 			}
@@ -431,6 +488,42 @@ func c02Worker(c *core.Collector, x *Ctx) {
 			}
 			check(ref.Build(q), "special-count", true)
 			c.Count("special_count_sweep_frames", 1)
+		})
+	}
+	// ---- (c1c) header fields that travel escaped x EVERY body length (both layouts, fragmented or not)
+	{
+		ids := []uint16{0x807e, 0x807d, 0x7e02, 0x7d03, 0x7e7e, 0x7d7d, 0x0200}
+		sers := []uint16{0x1234, 0x7e00, 0x007d}
+		core.ParallelFor(len(ids)*len(sers)*4, ncpu(), func(i int) {
+			id := ids[i%len(ids)]
+			ser := sers[i/len(ids)%len(sers)]
+			v2019 := i/len(ids)/len(sers)%2 == 1
+			frag := i/len(ids)/len(sers)/2%2 == 1
+			if id == 0x0200 && ser == 0x1234 {
+				return
+			}
+			r := core.NewRand(c.Seed, "c02hdr", uint64(i))
+			n := 6
+			if v2019 {
+				n = 10
+			}
+			bcd := make([]byte, n)
+			for q := range bcd {
+				bcd[q] = byte(r.Intn(10))<<4 | byte(r.Intn(10))
+			}
+			for l := 0; l <= 1023; l++ {
+				body := make([]byte, l)
+				for q := range body {
+					body[q] = byte(0x10 + r.Intn(0x60))
+				}
+				if l%4 == 3 {
+					for _, pos := range r.Perm(l)[:min(12, l)] {
+						body[pos] = []byte{0x7e, 0x7d}[r.Intn(2)]
+					}
+				}
+				check(ref.Build(ref.Params{ID: id, V2019: v2019, VersionByt: 1, Fragmented: frag, Sum: 0x7e7d, No: 0x007e, BCD: bcd, Serial: ser, Body: body}), "escaped-header-fields", true)
+				c.Count("escaped_header_field_frames", 1)
+			}
 		})
 	}
 	// ---- (c2) phone rendering: every position of a single non-zero nibble, pairs of nibbles, all-zero, all-f
